@@ -72,11 +72,16 @@ func genInstance(t *rapid.T, s *LSchema, maxOcc int) []byte {
 				"packed-fixed32": {"fixed32", "bytes"}, "fixed64": {"packed-fixed64", "varint"}, "packed-fixed64": {"fixed64", "bytes"}, "bytes": {"varint", "fixed32"}, "nested": {"varint", "fixed64"}}
 			plan = rapid.SampledFrom(alts[f.Plan]).Draw(t, "altplan")
 		}
+		// 1 in 5 varint numbers of a message behave like a bool field: every value is 0 or 1
+		u64 := wiregen.U64()
+		if (plan == "varint" || plan == "packed-varint") && rapid.IntRange(0, 4).Draw(t, "boolish") == 0 {
+			u64 = rapid.Uint64Range(0, 1)
+		}
 		for i := 0; i < nocc; i++ {
 			var b []byte
 			switch plan {
 			case "varint":
-				b = refwire.AppendVarint(refwire.AppendKey(nil, f.Num, 0), wiregen.U64().Draw(t, "v"))
+				b = refwire.AppendVarint(refwire.AppendKey(nil, f.Num, 0), u64.Draw(t, "v"))
 			case "fixed32":
 				b = refwire.AppendFixed32(refwire.AppendKey(nil, f.Num, 5), uint32(wiregen.U64().Draw(t, "f32")))
 			case "fixed64":
@@ -86,7 +91,7 @@ func genInstance(t *rapid.T, s *LSchema, maxOcc int) []byte {
 			case "packed-varint":
 				var p []byte
 				for j := rapid.IntRange(0, 6).Draw(t, "np"); j > 0; j-- {
-					p = refwire.AppendVarint(p, wiregen.U64().Draw(t, "pv"))
+					p = refwire.AppendVarint(p, u64.Draw(t, "pv"))
 				}
 				b = refwire.AppendLen(refwire.AppendKey(nil, f.Num, 2), p)
 			case "packed-fixed32":
@@ -406,6 +411,12 @@ func genPCase(t *rapid.T) *PCase {
 	c.Filter = rapid.SampledFrom([]int{0, 0, 1, 2, 3}).Draw(t, "filter")
 	n := rapid.IntRange(2, 6).Draw(t, "ninputs")
 	for i := 0; i < n; i++ {
+		if i > 0 && rapid.IntRange(0, 2).Draw(t, "samedshape") == 0 {
+			// the SAME shape as an earlier input (same numbers, same occurrence counts) with other contents: whatever a
+			// pooled object remembers about the previous message's shape matches, only the values must not
+			c.Inputs = append(c.Inputs, variation(c.Inputs[rapid.IntRange(0, i-1).Draw(t, "shapeof")]))
+			continue
+		}
 		c.Inputs = append(c.Inputs, genInstance(t, s, 5))
 	}
 	// a small pool of queries that are repeated across handles: the same accessor on the same tag of a
@@ -417,6 +428,21 @@ func genPCase(t *rapid.T) *PCase {
 			q.Acc += "s" // XxxValue -> XxxValues
 		}
 		qpool = append(qpool, q)
+	}
+	if rapid.IntRange(0, 3).Draw(t, "pingpong") == 0 {
+		// scripted: every pooled query is asked of one input after the other, each result closed before the next
+		// Decode - the same accessor on the same tag in successive lives of the pooled object
+		for round := 0; round < 2; round++ {
+			for i := range c.Inputs {
+				c.Prog = append(c.Prog, POp{Kind: "decode", Input: i})
+				for qi := range qpool {
+					q := qpool[qi]
+					c.Prog = append(c.Prog, POp{Kind: "acc", Handle: 0, Query: &q})
+				}
+				c.Prog = append(c.Prog, POp{Kind: "close", Handle: 0})
+			}
+		}
+		return c
 	}
 	nops := rapid.IntRange(1, 40).Draw(t, "nops")
 	for i := 0; i < nops; i++ {
@@ -449,7 +475,7 @@ func genPCase(t *rapid.T) *PCase {
 	return c
 }
 
-const ruleC14 = "case = options {safe, fast} x WithMaxBufferSize {unset, 0, 1, 2, 1024} x buffer filter {none, halving, to-zero, negative} + one definition (schema with 1..5 numbers, nested to depth 2) + a pool of 2..6 inputs of differing shapes (each number 0..5 occurrences, nested counts above and below the buffer limit, 1 in 12 nested elements not itself a well-formed message, 1 in 5 numbers carried with another wire type than in the pool's other inputs) + a program of <= 40 ops {Decode(i), accessor query incl. NestedResult(s) paths, Range, Close, keep a NestedResult handle (which in turn hands out the nested results of its own nested tags), Close a kept nested handle - before or after its parent was closed} on one Decoder; " +
+const ruleC14 = "case = options {safe, fast} x WithMaxBufferSize {unset, 0, 1, 2, 1024} x buffer filter {none, halving, to-zero, negative} + one definition (schema with 1..5 numbers, nested to depth 2) + a pool of 2..6 inputs of differing shapes (each number 0..5 occurrences, nested counts above and below the buffer limit, 1 in 12 nested elements not itself a well-formed message, 1 in 5 numbers carried with another wire type than in the pool's other inputs; 1 in 3 inputs has exactly the shape of an earlier one - same numbers and occurrence counts - with other contents) + a program of <= 40 random ops (1 in 4: a scripted program that asks every pooled query of one input after the other, closing each result before the next Decode) {Decode(i), accessor query incl. NestedResult(s) paths, Range, Close, keep a NestedResult handle (which in turn hands out the nested results of its own nested tags), Close a kept nested handle - before or after its parent was closed} on one Decoder; " +
 	"model: every live handle remembers its input; each accessor must equal the reference parse of THAT input; in safe mode every slice/string handed out is re-read after every later step (incl. after Close and after the decoder re-used the pooled object) and must be unchanged; no op panics; finally everything is closed, every input decoded again and the hand-outs re-checked; " +
 	"non-trivial = a program in which a recycled result (same pointer as an earlier closed one) is read; distinct by case content"
 
